@@ -503,7 +503,9 @@ def judge(case):
         text = untrimmed_text(doc, seg_t, ele_t, sub_t)
     else:
         text = doc.text(seg_t, ele_t, sub_t, eol='\n' if case.get('delims', 0) == 0 else '')
-    o = pipe.run(text, sinks=('xml',))
+    # the documented rendering option: a DOCTYPE naming the DTD (params 'simple_dtd'); default none
+    dtd = {None: None, 'dtd-url': 'http://example.org/dtd/x12simple.dtd', 'dtd-file': 'x12simple.dtd'}[case.get('dtd')]
+    o = pipe.run(text, sinks=('xml',), params=({'simple_dtd': dtd} if dtd else None))
     V = []
     if o.exc:
         if o.exc_where and o.exc_where.split(':')[0] in ('x12xml_simple.py', 'x12xml.py', 'xmlwriter.py'):
@@ -544,10 +546,17 @@ def work(shard):
     fname, family, delims, part, nparts, thorough = shard
     P = core.Part()
     entry = entry_of(fname)
+    dtd = None
+    if family.startswith('plan@'):
+        family, dtd = family.split('@')
     for i, name in enumerate(plan_names(entry, family, thorough)):
         if i % nparts != part:
             continue
+        if dtd and name not in ('min', 'all-filled', 'two-interchanges'):
+            continue
         case = {'map': fname, 'family': family, 'plan': name, 'delims': delims}
+        if dtd:
+            case['dtd'] = dtd
         P.n += 1
         V, skip, labels, info = judge(case)
         if skip:
@@ -576,6 +585,8 @@ def run(R):
                 shards.append((f, 'plan', dl, p, n, R.thorough))
         if f in MIXED:
             shards.append((f, 'mixed', 0, 0, 1, R.thorough))
+        for dtd in ('dtd-url', 'dtd-file'):
+            shards.append((f, 'plan@' + dtd, 0, 0, 1, R.thorough))
         for dl in range(len(DELIMS)):
             shards.append((f, 'payload', dl, 0, 1, R.thorough))
             shards.append((f, 'notused', dl, 0, 1, R.thorough))
@@ -592,6 +603,7 @@ def run(R):
                  'gen.plans_d1 documents of kinds %s in ~*: delimiters' % ', '.join(QUICK_KINDS)),
         'pair': 'every pair of loop-level include:/repeat2: deviations per map' if R.thorough else 'not run',
         'payload': '%d payloads %r on all free-text AN elements of one all-filled document per map x %d delimiter sets %r' % (len(PAYLOADS), PAYLOADS, len(DELIMS), DELIMS),
+        'options': 'the minimal, all-filled and two-interchange document of every map also rendered with params simple_dtd set (a URL, a file name): the DOCTYPE option of the XML sink',
         'mixed': 'files of two interchanges of different maps / versions: every ordered pair of %r (minimal document, then a two-group document)' % (MIXED,),
         'notused': 'one all-filled document per map with every not-used element / composite / component given a value x %d delimiter sets' % len(DELIMS),
         'trailing': 'one all-filled document per map written with all trailing empty elements and components of the definitions x %d delimiter sets' % len(DELIMS),
